@@ -18,11 +18,15 @@ ASSUMPTIONS = [
     "quoted strings containing a backslash are outside the modelled domain (ast.literal_eval is an oracle; the backslash is not a PEP 508 "
     "string character): the model answers '?' and only 'no foreign exception' is checked there",
     "a literal holds at most one of the two quote characters (a PEP 508 quoted string cannot contain its own delimiter)",
-    "canonicalize_name on non-ASCII upper-case letters is not modelled; generators use ASCII plus lower-case e-acute",
+    "canonicalize_name beyond ASCII: the name model lowers ASCII letters, U+0130 and U+212A only; generated marker texts keep other non-ASCII "
+    "cased letters (gen_marker.UNI_WORD: E-acute, capital sigma ...) out of quoted literals, where they would be compared with extra",
     "hash(): only 'equal markers hash alike' is observed",
 ]
 TRUSTED_EXTRA = [
     "ast.literal_eval on a quoted token without backslash = its body, failing exactly on NUL/LF/CR (re-checked by the law 'law.k.literaleval': code points below U+3000 in the quick tier, all of them in the thorough tier)",
+    "C09_trailing_newline / C09_requirement_marker_* are stated over the strict parser MText.parse_marker (END at the very end), which the marker "
+    "commands do not run (they run parse_marker_nl); it is the parser the requirement model (C08 check) runs. The streams newline and "
+    "law-req-prefix sample the statements on the real objects",
 ]
 
 
